@@ -2407,6 +2407,11 @@ static int32_t concatenate_dn(psPool_t *pool,
         return PS_ARG_FAIL;
     }
 
+    /* The attributes are counted above in a fixed order and printed below
+       in openssl's or in parse order.  Whichever attribute comes first gets
+       no ", " separator, so the print pass can need one more separator
+       than was counted. */
+    total_len += 2;
     str = psMalloc(pool, total_len + 1);
     if (str == NULL)
     {
@@ -2607,11 +2612,11 @@ static int32_t concatenate_dn(psPool_t *pool,
         }
     }
 
-    psAssert(total_len == (p - str));
+    psAssert((p - str) <= total_len);
 
+    *out_str_len = (size_t) (p - str);
     *p++ = '\0';
     *out_str = str;
-    *out_str_len = total_len;
 
     return PS_SUCCESS;
 }
